@@ -16,6 +16,7 @@ import (
 // statement programs used by the extended alphabet
 const (
 	progRows   = "1:r,c=SELECT 1" // one column, one row
+	progRowErr = "1:u,!boom"      // a row that cannot be encoded (nothing is emitted for it), then the statement fails
 	progNoCols = "0:c=OK"         // no columns
 	progFail   = "1:r,!fail"      // fails after one row
 	progTwo    = "1:r|1:r"        // two statements: not preparable
@@ -75,6 +76,7 @@ func c06Alphabet() (full []xletter, core []xletter, errcore []xletter) {
 		P("", progEOF, "fails-with-wrapped-EOF"), P("s", progUEOF, "fails-with-wrapped-UnexpectedEOF"), Q("1:!EOF", "error wrapping EOF"),
 		Q(progRows, "ok"), Q("1:!boom", "error"), Q(" ", "blank"),
 		xl("Oversized", "oversized", "", "", oversizedMsg()), xl("UnknownType", "unknown", "", "", pgproto.Msg('z', nil)),
+		P("", progRowErr, "row-cannot-be-encoded-then-error"),
 	}
 	xCloseCore = []xletter{P("", progRows, "rows"), B("", ""), CS(""), CP(""), E(""), DS(""), sync,
 		P("s", progRows, "rows"), B("p", "s"), CS("s"), CP("p"), E("p"), DP("p"),
@@ -257,7 +259,7 @@ func (s xstate) step(l xletter) []xbranch {
 			n := s
 			n.skip = true
 			return []xbranch{{reply: "DE", cbs: []string{"stmt:" + prog}, next: n}}
-		case progUEOF:
+		case progUEOF, progRowErr:
 			n := s
 			n.skip = true
 			return []xbranch{{reply: "E", cbs: []string{"stmt:" + prog}, next: n}}
